@@ -412,3 +412,28 @@ contract(IA + '::InterpAlgorithm.bracket', ['C15'],
          native=native_bracket_g, sampler=sample_bracket_g, name=IA + '::InterpAlgorithm.bracket',
          defs={'timeout_ms': 30000},
          canaries=[('a point on the first node is reported as below the grid', ('if x < grid[0]:\n                    return last_index, -1', 'if x <= grid[0]:\n                    return last_index, -1'), 'post')])
+
+
+# ---- InterpAlgorithmFixed.bracket (one-point path): every dimension is bracketed with its own grid, its own coordinate
+# and its own cached index, and the new index is stored back for the next call -------------------------------------
+def _fixed_self(dim):
+    return Obj('InterpAlgorithmFixed', dim=dim, grid=TupleT(*[Arr('ng%d' % j) for j in range(dim)]), last_index=ListT(*[Int() for _ in range(dim)]))
+
+
+for _dim in (1, 2):
+    _req, _ens = [], ['same_object(result[0], self.last_index) and result[1] is None']
+    for _j in range(_dim):
+        G_ = 'self.grid[%d]' % _j
+        N_ = 'ng%d' % _j
+        _req += ['%s >= 2' % N_, 'all(all(implies(a < b, %s[a] < %s[b]) for b in range(%s)) for a in range(%s))' % (G_, G_, N_, N_),
+                 'self.last_index[%d] <= %s - 1' % (_j, N_)]
+        _ens += ['implies(x[{j}] < {g}[0], self.last_index[{j}] == -1)'.format(j=_j, g=G_),
+                 'implies(x[{j}] > {g}[{n} - 1], self.last_index[{j}] == {n} - 1)'.format(j=_j, g=G_, n=N_),
+                 'implies({g}[0] <= x[{j}] and x[{j}] <= {g}[{n} - 1], 0 <= self.last_index[{j}] and self.last_index[{j}] <= {n} - 2 and '
+                 '{g}[self.last_index[{j}]] <= x[{j}] and x[{j}] <= {g}[self.last_index[{j}] + 1])'.format(j=_j, g=G_, n=N_)]
+    contract(IA + '::InterpAlgorithmFixed.bracket', ['C15'],
+             dict(self=_fixed_self(_dim), x=Arr(_dim)), requires=_req, ensures=_ens,
+             modifies=['self.last_index'],
+             assumed={'self.vectorized': Assumed(returns=False, note='one-point calls take the non-vectorized branch (Interp*D*.vectorized: x.shape[0] > 1)')},
+             name=IA + '::InterpAlgorithmFixed.bracket[%d-D, one point]' % _dim,
+             canaries=[('every dimension bracketed with the first coordinate', ('self._bracket_dim(self.grid[j], x[j],', 'self._bracket_dim(self.grid[j], x[0],'), 'post')] if _dim == 2 else [])
